@@ -15,7 +15,7 @@ var (
 // ParseSEINalu - parse SEI NAL unit (incl header) and return messages given SPS.
 // Returns sei.ErrRbspTrailingBitsMissing if the NALU is missing the trailing bits.
 func ParseSEINalu(nalu []byte, sps *SPS) ([]sei.SEIMessage, error) {
-	if GetNaluType(nalu[0]) != NALU_SEI {
+	if len(nalu) < 1 || GetNaluType(nalu[0]) != NALU_SEI {
 		return nil, ErrNotSEINalu
 	}
 	seiBytes := nalu[1:] // Skip NALU header
